@@ -369,3 +369,77 @@ M2('c10-scan-helper-outcome-negated', 'C10', 'R5', [
     {'file': U, 'old': "def _create_str_encoder(", 'new': _SCAN_HELPER % 'False'},
     {'file': U, 'old': SCAN, 'new': "            if not _has_only_valid_escapes(uri):\n"}], also=('C15',))
 # the factory's extra parameter takes part in the encoder's decision (k1-c10-4 shape, not cosmetic): exit 2 by design, not listed
+
+# ---------------------------------------------------------------- second preserving wave (k2-*): refactoring + break
+# k2-c08-1 shape: try / except KeyError written as a membership test; the mistake sits in the looked-through arms
+_TRY_BA = ("        try:\n            decoded_uri += _HEX_TO_BYTE[token_partial] + token[2:]\n        except KeyError:\n"
+           "            # malformed percentage like \"x=%\" or \"y=%+\"\n            decoded_uri += b'%' + token\n")
+_TRY_LIST = ("        try:\n            decoded.append(_HEX_TO_BYTE[token_partial] + token[2:])\n        except KeyError:\n"
+             "            # malformed percentage like \"x=%\" or \"y=%+\"\n            decoded.append(b'%' + token)\n")
+_TRY_INLINE = ("            try:\n                reencoded_uri += _HEX_TO_BYTE[token_partial] + token[2:]\n            except KeyError:\n"
+               "                # malformed percentage like \"x=%\" or \"y=%+\"\n                reencoded_uri += b'%' + token\n")
+# the literal arm forgets the '%': decode('%zz' * 8) == 'zz' * 8
+M('c10-membership-guard-literal-arm-drops-percent', 'C10', 'R4', U, _TRY_BA,
+  "        if token_partial in _HEX_TO_BYTE:\n            decoded_uri += _HEX_TO_BYTE[token_partial] + token[2:]\n"
+  "        else:\n            decoded_uri += token\n", also=('C08',))
+# no literal arm at all: a malformed escape vanishes
+M('c10-membership-guard-without-else', 'C10', 'R4', U, _TRY_LIST,
+  "        if token_partial in _HEX_TO_BYTE:\n            decoded.append(_HEX_TO_BYTE[token_partial] + token[2:])\n", also=('C08',))
+# the test inverted, arms left as they were: the lookup runs exactly when the key is missing (KeyError), well-formed escapes stay literal
+M('c10-membership-guard-inverted', 'C10', 'R4', U, _TRY_INLINE,
+  "            if token_partial not in _HEX_TO_BYTE:\n                reencoded_uri += _HEX_TO_BYTE[token_partial] + token[2:]\n"
+  "            else:\n                reencoded_uri += b'%' + token\n", also=('C08',))
+# guard-clause form with `continue`, the literal arm emits the two key characters only
+M('c10-membership-guard-clause-partial-literal', 'C10', 'R4', U, _TRY_INLINE,
+  "            if token_partial not in _HEX_TO_BYTE:\n                reencoded_uri += b'%' + token_partial\n                continue\n"
+  "            reencoded_uri += _HEX_TO_BYTE[token_partial] + token[2:]\n", also=('C08',))
+
+# k2-c10-2 shape: the short-input path of decode() moved into a third joiner; the mistake sits in the moved loop
+_INLINE_PATH = ("        reencoded_uri = tokens[0]\n        for token in tokens[1:]:\n            token_partial = token[:2]\n" + _TRY_INLINE
+                + "\n        # Convert back to str\n        return reencoded_uri.decode('utf-8', 'replace')\n")
+_INPLACE = ("def _join_tokens_inplace(tokens):\n    decoded_uri = tokens[0]\n    for token in tokens[1:]:\n        token_partial = token[:2]\n"
+            "        try:\n            decoded_uri += _HEX_TO_BYTE[token_partial] + token[%s:]\n        except KeyError:\n"
+            "            decoded_uri += b'%%' + token\n\n    return decoded_uri.decode('utf-8', %s)\n\n\ndef decode(")
+M2('c10-inplace-joiner-rest-from-3', 'C10', 'R4', [
+    {'file': U, 'old': "def decode(", 'new': _INPLACE % ('3', "'replace'")},
+    {'file': U, 'old': _INLINE_PATH, 'new': "        return _join_tokens_inplace(tokens)\n"}], also=('C08',))
+M2('c10-inplace-joiner-strict-decode', 'C10', 'R4', [
+    {'file': U, 'old': "def decode(", 'new': _INPLACE % ('2', "'strict'")},
+    {'file': U, 'old': _INLINE_PATH, 'new': "        return _join_tokens_inplace(tokens)\n"}], also=('C04', 'C08'))
+# ... and the moved path is handed the tokens without the first one
+M2('c10-inplace-joiner-gets-tail-only', 'C10', 'R4', [
+    {'file': U, 'old': "def decode(", 'new': _INPLACE % ('2', "'replace'")},
+    {'file': U, 'old': _INLINE_PATH, 'new': "        return _join_tokens_inplace(tokens[:7])\n"}], also=('C08',))
+
+# k2-c10-3 shape: the char table is a tuple indexed by the byte value; the mistake sits in what the tuple holds
+_TUPLE_TABLE = [
+    {'file': U, 'old': "    lookup = {}\n", 'new': "    lookup = []\n"},
+    {'file': U, 'old': "        lookup[code_point] = encoded_char\n", 'new': "        lookup.append(encoded_char)\n"},
+    {'file': U, 'old': "    return lookup.__getitem__\n", 'new': "    return tuple(lookup).__getitem__\n"}]
+M2('c10-tuple-table-lower-case-escape', 'C10', None, _TUPLE_TABLE + [
+    {'file': U, 'old': "'%{0:02X}'.format(code_point)", 'new': "'%{0:02x}'.format(code_point)"}], also=('C08', 'C15'))
+M2('c10-tuple-table-half-range', 'C10', None, _TUPLE_TABLE + [
+    {'file': U, 'old': "    for code_point in range(256):\n", 'new': "    for code_point in range(128):\n"}], also=('C08', 'C15'))
+M2('c10-tuple-table-built-from-wider-set', 'C10', None, _TUPLE_TABLE + [
+    {'file': U, 'old': "        if chr(code_point) in allowed_chars:\n", 'new': "        if chr(code_point) in allowed_chars + '%':\n"}], also=('C08', 'C15'))
+
+# k2-c10-4 shape: a keyword-only parameter of the factory that no caller passes, bound to its default; the mistake is the default
+_EXTRA = [
+    {'file': U, 'old': "    is_value: bool, check_is_escaped: bool = False\n", 'new': "    is_value: bool, check_is_escaped: bool = False, *, extra_allowed: str = %r\n"},
+    {'file': U, 'old': "    allowed_chars = _UNRESERVED if is_value else _ALL_ALLOWED\n",
+     'new': "    allowed_chars = (_UNRESERVED if is_value else _ALL_ALLOWED) + extra_allowed\n"}]
+M2('c10-unpassed-extra-allowed-default-percent', 'C10', 'R1',
+   [dict(e, new=(e['new'] % '%') if '%r' in e['new'] else e['new']) for e in _EXTRA], also=('C08', 'C15'))
+M2('c10-unpassed-extra-allowed-default-plus', 'C10', 'R1',
+   [dict(e, new=(e['new'] % '+') if '%r' in e['new'] else e['new']) for e in _EXTRA], also=('C08', 'C15'))
+
+# k2-c10-1 shape: the for/else of the escaped-check as a flag cleared before each break; the mistake is a break that leaves the flag set
+_FLAG_SCAN = ("            tokens = uri.split('%%')\n            already_escaped = True\n            for token in tokens[1:]:\n                hex_octet = token[:2]\n\n"
+              "                if len(hex_octet) != 2:\n%s                    break\n\n"
+              "                if hex_octet[0] not in _HEX_DIGITS or hex_octet[1] not in _HEX_DIGITS:\n%s                    break\n\n"
+              "            if already_escaped:\n")
+_CLR = "                    already_escaped = False\n"
+M('c10-flag-scan-short-escape-keeps-flag', 'C10', None, U, SCAN, _FLAG_SCAN % ('', _CLR), also=('C15',))
+M('c10-flag-scan-bad-digit-keeps-flag', 'C10', None, U, SCAN, _FLAG_SCAN % (_CLR, ''), also=('C15',))
+# the flag tested with the wrong polarity: accepted exactly when an escape was malformed
+M('c10-flag-scan-negated-test', 'C10', None, U, SCAN, (_FLAG_SCAN % (_CLR, _CLR)).replace("if already_escaped:", "if not already_escaped:"), also=('C15',))
